@@ -561,6 +561,11 @@ func ParentMain(propID, tier, replay string) int {
 				// Only violations and counters from the race phase are merged;
 				// fingerprints were already counted in the plain phase.
 				rr := &Result{ID: r.ID, Viol: r.Viol, Counters: map[string]int64{}, Sets: map[string][]string{}, racePhase: true}
+				for k, v := range r.Counters {
+					if k == "pure_race_runs" || k == "hook_events" {
+						rr.Counters["racebuild_"+k] = v
+					}
+				}
 				for i := range rr.Viol {
 					if !strings.HasPrefix(rr.Viol[i].Sig, "death|race") {
 						rr.Viol[i].Sig = "underrace|" + rr.Viol[i].Sig
